@@ -8,6 +8,10 @@ CHECKS = {
    technique="TLA+ spec (Lex/ReaderImpl/FreeForm) model-checked with TLC; TLC-generated layouts replayed into FortranReader; recorded reader executions validated by TLC against the lexical-rule spec",
    text="TLC checks on the generator spec that the reference lexical rules recover the logical content from every layout (LayoutInvariant) and that the reader mechanism without deviations refines them; every complete file TLC reaches (exhaustive to a feature budget, seeded simulation beyond) is run through the real FortranReader and compared with the by-construction content; recorded executions (repository sources, sampled and all mismatching cases) are validated by TLC against RefLex and the as-built model.",
    note="Bounded: <=2-3 statements, <=3-4 tokens, literals <=2-3 atoms, feature budget 1-3 exhaustive / 7 random. Trusted: TLC, CPython re, TLA+ value parser, Python image of Lex.Canon (cross-checked by TLC each run). Domain restricted to valid free-form input (see evidence assumptions)."),
+ "C04": dict(level="model_checking", ref="DESIGN.md 6/C04, 4.3, B.3",
+   technique="TLA+ spec (Access.tla: generator + Fortran accessibility rule + as-built permission mechanism) model-checked with TLC; every generated specification part replayed into FORD's parser",
+   text="TLC enumerates every specification part up to the bound (scope default at every position x declaration attribute x access/protected statement before/after x entity kind; type component/binding defaults x 4 binding forms; submodules), checks that the mechanism without deviations refines the rule and that the as-built deviations are exactly the recorded findings; each case is rendered in 2 spellings x 2 contexts, parsed by the real FORD and entity.permission compared with the rule.",
+   note="Exhaustive over the stated product within MaxStmts (3-4 module statements, 5-6 type-body statements, 2 names). Trusted: TLC, the renderer (total function of the abstract program), CPython. Protected+private accepts either value."),
 }
 
 NOT_YET = {}
